@@ -864,7 +864,8 @@ class Normaliser:
         free = set()
         for st in body:
             free |= names_loaded(st)
-        body = pre + body
+        # (the initialisations `param = <argument>` are prepended AFTER the helper's locals were renamed apart: the argument is an
+        # expression of the CALLER and must not be renamed -- a caller variable of the same name as the helper's parameter was captured)
         free -= gbound | set(params) | set(selfmap)
         if free & self.caller_bound:
             return None                    # a global of the helper is shadowed by a local of the caller
@@ -904,6 +905,7 @@ class Normaliser:
                     return copy.deepcopy(m[n.id])
                 return n
         body = [_Ren().visit(copy.deepcopy(st)) for st in body]
+        body = [ast.Assign(targets=[ast.Name(id=tag + a_.targets[0].id, ctx=ast.Store())], value=a_.value) for a_ in pre] + body
         if extra_kws is not None:
             K = a.kwarg.arg
 
